@@ -37,12 +37,14 @@ func pduParamSets(l PDULayout, tier string, extraCounts bool) []pduParams {
 	}
 	add(base)
 	if hasK(l, "list") {
+		// 13 = first count at which 21*count wraps in 8 bits. Larger counts (up to 255, the largest the
+		// one-octet field carries) cost minutes per job and are in the thorough tier only
 		cs := []int{0, 2, 13}
 		if extraCounts {
 			cs = append(cs, 12)
 		}
 		if tier == "thorough" {
-			cs = append(cs, 3, 4, 5, 12, 13, 14, 50, 99, 100, 255)
+			cs = append(cs, 3, 4, 5, 12, 14, 50, 99, 100, 101, 128, 255)
 		}
 		for _, c := range cs {
 			p := base
